@@ -193,6 +193,10 @@ def check(run, driver):
         W = rng.standard_normal((N, dx + dy + dz)) @ (rng.standard_normal((dx + dy + dz, dx + dy + dz)) * 0.5 + np.eye(dx + dy + dz))
         if it % 3 == 2:      # samples far from the origin (exact power-of-two offsets, 1e6..1e7 spacings away): distances must come from differences
             W = W + 2.0 ** rng.integers(20, 25, size=W.shape[1]) * rng.choice([-1.0, 1.0], size=W.shape[1])
+        elif it % 6 == 1:    # data in large units (spread 1e3 .. 1e6) ...
+            W = W * float(10 ** rng.uniform(3, 6))
+        elif it % 6 == 4:    # ... and in small ones (spread 1e-6 .. 1e-5): the estimate has no scale of its own
+            W = W * float(10 ** rng.uniform(-6, -5))
         X, Y, Z = W[:, :dx], W[:, dx:dx + dy], W[:, dx + dy:]
         R = lambda A: ref_entropy(A, k, metric=metric, detail=True)
         parts_mi = [R(X), R(Y), R(np.hstack((X, Y)))]
